@@ -13,7 +13,11 @@ pub enum TapeSpec {
 }
 
 pub const N_FAMILIES: u8 = 10;
-pub const FAMILY_NAMES: [&str; 10] = [
+/// families 10 and 11 (extreme magnitudes) are only used for KahanSum under C08: squares would
+/// underflow / overflow in the statistics machines
+pub const FAM_TINY: u8 = 10;
+pub const FAM_HUGE: u8 = 11;
+pub const FAMILY_NAMES: [&str; 12] = [
     "uniform-positive",
     "mixed-sign-gaussian",
     "log-uniform-wide",
@@ -24,6 +28,8 @@ pub const FAMILY_NAMES: [&str; 10] = [
     "mixed-magnitudes",
     "big-head-small-increments",
     "random-walk-increments",
+    "subnormal-range",
+    "huge-magnitudes",
 ];
 pub const FAM_EXACT: u8 = 4;
 
@@ -46,7 +52,7 @@ impl TapeSpec {
         match self {
             TapeSpec::Explicit(v) => json!({"hex": v.iter().map(|b| format!("{:x}", b)).collect::<Vec<_>>() }),
             TapeSpec::Gen { family, seed, len, flt, positive, scale_exp } => json!({"gen": {
-                "family": family, "family_name": FAMILY_NAMES[*family as usize % 10], "seed": format!("{:x}", seed), "len": len,
+                "family": family, "family_name": FAMILY_NAMES[*family as usize % 12], "seed": format!("{:x}", seed), "len": len,
                 "flt": match flt { Flt::F32 => "f32", Flt::F64 => "f64", Flt::Int => "int" },
                 "positive": positive, "scale_exp": scale_exp }}),
         }
@@ -115,7 +121,7 @@ pub fn gen_tape(family: u8, seed: u64, len: usize, flt: Flt, positive: bool, sca
     let walk_step = scale * 1e-3;
     let mut pending: Option<f64> = None;
     for i in 0..len {
-        let x = match family % N_FAMILIES {
+        let x = match family {
             0 => scale * (0.5 + r.unit()),
             1 => scale * r.gaussish(),
             2 => {
@@ -162,7 +168,18 @@ pub fn gen_tape(family: u8, seed: u64, len: usize, flt: Flt, positive: bool, sca
                     scale * 0.1
                 }
             }
-            _ => walk_step * (1.0 + (i % 7) as f64) * if r.chance(0.9) { 1.0 } else { -1.0 },
+            9 => walk_step * (1.0 + (i % 7) as f64) * if r.chance(0.9) { 1.0 } else { -1.0 },
+            10 => {
+                // the subnormal range of the element type (sums of subnormals are exact; the
+                // oracle has an absolute floor there)
+                let sub = if flt == Flt::F32 { f32::from_bits(1) as f64 } else { f64::from_bits(1) };
+                sub * (r.below(5000) as f64) * if r.chance(0.7) { 1.0 } else { -1.0 }
+            }
+            _ => {
+                // huge magnitudes: 2^-24 of the largest finite value, so that 10^7 terms cannot overflow
+                let max = if flt == Flt::F32 { f32::MAX as f64 } else { f64::MAX };
+                max * 2f64.powi(-26) * (0.5 + r.unit()) * if r.chance(0.6) { 1.0 } else { -1.0 }
+            }
         };
         let x = fix(x);
         // round to the element type and re-fix zero if positivity is required
